@@ -11,7 +11,9 @@ bKf == <<107, 102, 114, 101, 101, 98, 115, 100>>  bMusl == <<109, 117, 115, 108>
 Comps8 == {bAny, bAll, bLinux, bKf, bGnu, bMusl, amd64, i386}
 ArchNames == Comps8 \cup {a \o <<HYPHEN>> \o c : a \in Comps8, c \in Comps8}
              \cup {a \o <<HYPHEN>> \o o \o <<HYPHEN>> \o c : a \in Comps8, o \in Comps8, c \in Comps8}
-ArchVecs == {[k |-> "arch_rt", name |-> n] : n \in ArchNames}
+Comps4 == {bAny, bGnu, bLinux, amd64}
+ArchNames4 == {a \o <<HYPHEN>> \o o \o <<HYPHEN>> \o c \o <<HYPHEN>> \o e : a \in Comps4, o \in Comps4, c \in Comps4, e \in Comps4}
+ArchVecs == {[k |-> "arch_rt", name |-> n] : n \in ArchNames \cup ArchNames4}
 
 \* ---- C06 domain: "all" plus {any,x,y,z}^3 --------------------------------------
 Comp == {bAny, <<120>>, <<121>>, <<122>>}
